@@ -74,6 +74,45 @@ def declared_lists(prog, ce):
     return out
 
 
+def _is_translated_regex(prog, func, recv):
+    """True when `recv` is (an element of) a table built from re.compile(fnmatch.translate(...))."""
+    seen = set()
+
+    def has_compile(mod, fn, expr):
+        for x in ast.walk(expr):
+            if isinstance(x, ast.Call):
+                r = prog.resolve_expr(fn, mod, x.func)
+                if r and r[1] == "re.compile" and any(isinstance(y, ast.Call) and (prog.resolve_expr(fn, mod, y.func) or ("", ""))[1] == "fnmatch.translate" for a in x.args for y in ast.walk(a)):
+                    return True
+        return False
+
+    def origin(expr, depth=0):
+        if depth > 6:
+            return False
+        if has_compile(func.module, func, expr):
+            return True
+        for x in ast.walk(expr):
+            if isinstance(x, ast.Name) and x.id not in seen:
+                seen.add(x.id)
+                # comprehension / loop variable in the function
+                for n in func.own_nodes():
+                    if isinstance(n, (ast.comprehension, ast.For)) and any(isinstance(t, ast.Name) and t.id == x.id for t in ast.walk(n.target)):
+                        if origin(n.iter, depth + 1):
+                            return True
+                    if isinstance(n, ast.Assign) and any(isinstance(t, ast.Name) and t.id == x.id for t in n.targets):
+                        if origin(n.value, depth + 1):
+                            return True
+                # module-level table
+                for st in func.module.tree.body:
+                    if isinstance(st, (ast.Assign, ast.AnnAssign)):
+                        tg = st.targets if isinstance(st, ast.Assign) else [st.target]
+                        if any(isinstance(t, ast.Name) and t.id == x.id for t in tg) and st.value is not None and has_compile(func.module, None, st.value):
+                            return True
+        return False
+
+    return origin(recv)
+
+
 def run(ctx):
     prog = ctx.prog
     ce = ConstEval(prog)
@@ -90,6 +129,16 @@ def run(ctx):
     # branch on fmt is None
     none_ifs = [st for st in walk_stmts(sel.body) if isinstance(st, ast.If) and isinstance(st.test, ast.Compare) and isinstance(st.test.left, ast.Name) and st.test.left.id == pfmt and isinstance(st.test.comparators[0], ast.Constant) and st.test.comparators[0].value is None]
     fn_calls = [cs for cs in sel.calls if cs.external in ("fnmatch.fnmatch", "fnmatch.fnmatchcase")]
+    # the same decision through precompiled patterns: <re.compile(fnmatch.translate(p))>.match(name); translate() anchors
+    # the end only, so .match/.fullmatch are equivalent to fnmatch and .search/.findall are not
+    import types as _types
+    for n in sel.own_nodes():
+        if isinstance(n, ast.Call) and isinstance(n.func, ast.Attribute) and n.func.attr in ("match", "fullmatch", "search", "findall", "finditer") and len(n.args) == 1 and _is_translated_regex(prog, sel, n.func.value):
+            fn_calls.append(_types.SimpleNamespace(node=n, external="re.Pattern." + n.func.attr))
+            if n.func.attr in ("match", "fullmatch"):
+                ctx.ok("R1", f"precompiled fnmatch.translate patterns are applied with .{n.func.attr} (anchored at both ends)", f"{sel.module.relpath}:{n.lineno}")
+            else:
+                ctx.violate("R1", f"precompiled fnmatch.translate patterns are applied with .{n.func.attr}: translate() anchors only the end, so a pattern without a leading `*` matches in the middle of a name", sel, n)
     if len(none_ifs) != 1 or not fn_calls:
         ctx.violate("R1", "cannot find the `fmt is None` dispatch / fnmatch call in the selection routine", sel, sel.node, construct="selection shape")
     else:
@@ -103,6 +152,8 @@ def run(ctx):
                 ctx.violate("R1", "pattern matching is reachable although an explicit format was given (explicit format no longer always wins)", sel, cs.node)
             # first argument is the base name
             a0 = deref(sel, cs.node.args[0]) if cs.node.args else None
+            while isinstance(a0, ast.Call) and (prog.resolve_expr(sel, sel.module, a0.func) or ("", ""))[1] in ("os.path.normcase", "builtins.str") and len(a0.args) == 1:
+                a0 = deref(sel, a0.args[0])
             okb = isinstance(a0, ast.Call) and (prog.resolve_expr(sel, sel.module, a0.func) or ("", ""))[1] == "os.path.basename" and isinstance(a0.args[0], ast.Name) and a0.args[0].id == pfile
             if okb:
                 ctx.ok("R1", "patterns are matched against os.path.basename(filename)", f"{sel.module.relpath}:{cs.node.lineno}")
@@ -154,7 +205,7 @@ def run(ctx):
     last = sel.body[-1]
     if not isinstance(last, (ast.Raise, ast.Return)):
         ctx.violate("R1", "the selection routine can fall off its end (returns None instead of raising)", sel, last)
-    allowed_ext = {"os.path.basename", "fnmatch.fnmatch", "fnmatch.fnmatchcase", "builtins.hasattr", "builtins.any", "builtins.all", "builtins.isinstance", "builtins.str", "builtins.len", "builtins.sorted"}
+    allowed_ext = {"os.path.basename", "os.path.normcase", "fnmatch.fnmatch", "fnmatch.fnmatchcase", "builtins.hasattr", "builtins.any", "builtins.all", "builtins.isinstance", "builtins.str", "builtins.len", "builtins.sorted"}
     for selector in (sel, prog.func("iodata.api._select_input_module")):
         bad = [cs for cs in selector.calls if (cs.external and cs.external not in allowed_ext) or (cs.callees and cs.cls is None)]
         bad = [cs for cs in bad if not (cs.cls is not None)]
